@@ -293,7 +293,8 @@ class Driver:
     def __init__(self, ctx, res, root_spec, env):
         self.ctx, self.res, self.cc = ctx, res, ctx.cc
         self.env = env
-        self.root = spec.resolve(root_spec, {"$FX": ctx.sb.fx})
+        self.mapping = {"$FX": ctx.sb.fx, "$DIR": ctx.dir}
+        self.root = spec.resolve(root_spec, self.mapping)
         self.built = spec.build(self.cc, self.root)
         self.keyfile = os.path.join(ctx.dir, "hist.key")
         self.cfg = self.cc.Config(self.built.schema, key_filename=self.keyfile)
@@ -330,6 +331,7 @@ class Driver:
 
     # -- executing one operation: returns dict(kind, raised, pred, ...), or None when skipped
     def step(self, op):
+        op = spec.resolve(op, self.mapping)
         handler = getattr(self, "_op_" + op["op"])
         return handler(op)
 
